@@ -212,7 +212,15 @@ func Run(ctx *common.Ctx) {
 	for i := 0; i < nvalues; i++ {
 		symOK := g.r.Chance(25)
 		var v slip.Object
-		if i%2 == 0 {
+		if i%5 == 0 {
+			// a lambda at top level (where it may carry a doc string) with a generated body: the vehicle for
+			// every special layout of the pretty printer
+			g.hist("kind:lambda-top-level")
+			v = g.genLambda(g.r.Chance(30))
+			if v == nil {
+				v = g.safeValue(2)
+			}
+		} else if i%2 == 0 {
 			g.safe = true // the shapes inside the guard, so that large values stay inside it
 			v = g.safeValue(3)
 			g.safe = false
@@ -250,9 +258,9 @@ func Run(ctx *common.Ctx) {
 	if os.Getenv("VERIF_C19_TIMING") != "" {
 		fmt.Fprintln(os.Stderr, "data part done", time.Since(t0))
 	}
-	nmod, next := 140, 40
+	nmod, next := 140, 110
 	if ctx.Thorough() {
-		nmod, next = 1500, 400
+		nmod, next = 1500, 1200
 	}
 	for i := 0; i < nmod; i++ {
 		wild := i%2 == 1
